@@ -370,6 +370,78 @@ func (cr *certRun) alive() bool {
 	return err == nil && bytes.Contains(b, []byte(`"vendor"`))
 }
 
+var certLine = regexp.MustCompile(`^(Start|Test[0-9][0-9]|End): '(.*)'$`)
+var certRecv = regexp.MustCompile(`^  Receive: 'Reply number ([0-9]+)'$`)
+
+// clientRun: the program's own client mode against the service under test; its standard output is its transcript
+func (cr *certRun) clientRun(bin string) {
+	cmd := exec.Command(bin, "-varlink", "unix:"+cr.addr, "-client")
+	var ob bytes.Buffer
+	cmd.Stdout = &ob
+	cmd.Stderr = &ob
+	done := make(chan error, 1)
+	if err := cmd.Start(); err != nil {
+		cr.log.Ev("CLIENT", tr.M{"exit": -1, "replies": []tr.M{}, "output": err.Error()})
+		return
+	}
+	go func() { done <- cmd.Wait() }()
+	exit := 0
+	select {
+	case err := <-done:
+		if err != nil {
+			exit = 1
+		}
+	case <-time.After(20 * time.Second):
+		cmd.Process.Kill()
+		<-done
+		exit = -9
+	}
+	replies := []tr.M{}
+	want := map[string]string{"Test01": "true", "Test02": "1", "Test03": "1", "Test04": "ping", "Test05": "false",
+		"Test06": "{false 2 " + certPi + " a lot of string}", "Test07": "map[bar:Bar foo:Foo]", "Test08": "map[one:{} three:{} two:{}]", "Test11": "", "End": "true"}
+	n10 := 0
+	for _, l := range strings.Split(strings.TrimRight(ob.String(), "\n"), "\n") {
+		if m := certRecv.FindStringSubmatch(l); m != nil {
+			k, _ := strconv.Atoi(m[1])
+			n10++
+			replies = append(replies, tr.M{"t": "Test10", "k": k, "cont": false})
+			continue
+		}
+		m := certLine.FindStringSubmatch(l)
+		switch {
+		case l == "Test10() Send:":
+		case m == nil:
+			replies = append(replies, tr.M{"t": "other:" + l[:minInt(len(l), 60)], "k": 0, "cont": false})
+		case m[1] == "Start":
+			fr := certFrame{Parameters: json.RawMessage(`{"client_id":` + strconv.Quote(m[2]) + `}`)}
+			replies = append(replies, cr.token("Start", &fr))
+		case m[1] == "Test10":
+			// the summary line after the ten receives
+			if m[2] != "[Reply number 1 Reply number 2 Reply number 3 Reply number 4 Reply number 5 Reply number 6 Reply number 7 Reply number 8 Reply number 9 Reply number 10]" {
+				replies = append(replies, tr.M{"t": "other:" + l[:minInt(len(l), 60)], "k": 0, "cont": false})
+			}
+		case m[1] == "Test09":
+			// prints a Go struct holding raw JSON bytes; its value is what Test10 is then called with and the service checks
+			replies = append(replies, tr.M{"t": "Test09", "k": 0, "cont": false})
+		default:
+			if w, ok := want[m[1]]; ok && w == m[2] {
+				replies = append(replies, tr.M{"t": m[1], "k": 0, "cont": false})
+			} else {
+				replies = append(replies, tr.M{"t": "other:" + l[:minInt(len(l), 60)], "k": 0, "cont": false})
+			}
+		}
+	}
+	// the client prints a reply when it has it, not the frame's flag: all receives of the more-call but the last continue
+	seen := 0
+	for i := range replies {
+		if replies[i]["t"] == "Test10" {
+			seen++
+			replies[i]["cont"] = seen < n10
+		}
+	}
+	cr.log.Ev("CLIENT", tr.M{"exit": exit, "replies": replies})
+}
+
 func cmdCert(args []string) int {
 	fs := flag.NewFlagSet("cert", flag.ExitOnError)
 	scenFile := fs.String("scen", "", "NDJSON histories")
@@ -442,6 +514,8 @@ func cmdCert(args []string) int {
 				log.Ev("CLOSE", tr.M{"c": op.C})
 			case "Call":
 				cr.call(op)
+			case "ClientRun":
+				cr.clientRun(*srv)
 			case "Flood":
 				// n Start calls on connection c, each observed like any other call
 				for k := 0; k < op.N; k++ {
